@@ -1062,7 +1062,8 @@ class AlternatingCrossover(BallotGenerator):
             pref_for_bloc = list(pref_interval_dict[bloc].interval.values())
 
             for i in range(num_cross_ballots + num_bloc_ballots):
-                bloc_cands = list(
+                # draw this ballot's orders; the candidate lists stay aligned with their probabilities
+                bloc_order = list(
                     np.random.choice(
                         bloc_cands,
                         p=pref_for_bloc,
@@ -1070,7 +1071,7 @@ class AlternatingCrossover(BallotGenerator):
                         replace=False,
                     )
                 )
-                opposing_cands = list(
+                opposing_order = list(
                     np.random.choice(
                         opposing_cands,
                         p=pref_for_opposing,
@@ -1084,13 +1085,13 @@ class AlternatingCrossover(BallotGenerator):
                     # (zip_longest: the longer slate's remaining candidates follow)
                     ranking = [
                         frozenset({cand})
-                        for pair in it.zip_longest(opposing_cands, bloc_cands)
+                        for pair in it.zip_longest(opposing_order, bloc_order)
                         for cand in pair
                         if cand is not None
                     ]
                 else:
-                    ranking = [frozenset({c}) for c in bloc_cands] + [
-                        frozenset({c}) for c in opposing_cands
+                    ranking = [frozenset({c}) for c in bloc_order] + [
+                        frozenset({c}) for c in opposing_order
                     ]
 
                 ballot = Ballot(ranking=tuple(ranking), weight=Fraction(1, 1))
